@@ -6,7 +6,10 @@ SIDECARS = ["sensor", "protocol_cmd", "derived"]
 
 def units(tier):
     import contracts.sensor as cs
-    return script_units(SIDECARS, "derived_rows", "derived", ("C13",), tier, sorted(cs.sensor_tables()))
+    out = script_units(SIDECARS, "derived_rows", "derived", ("C13",), tier, sorted(cs.sensor_tables()))
+    if tier == "thorough":
+        out.append(("native", SIDECARS, "contracts.derived", "exhaustive_pairs", "exhaustive:label_pairs", ("C13",)))
+    return out
 
 
 replay = replay_rows
